@@ -367,12 +367,18 @@ func genCase(t *rapid.T) Case {
 		// choices directly at the top level of every module (the root of the model set then has the choices of several
 		// modules): cases with defaults and with mandatory leaves, a default case in some
 		str := func() *sg.TypeSpec { return &sg.TypeSpec{Name: "string"} }
+		sameChoiceName := g.Bool("samechoicename")
 		for i, m := range c.Mods {
-			if m.BelongsTo != "" && g.Bool("topchsub") {
+			if m.BelongsTo != "" && (sameChoiceName || g.Bool("topchsub")) {
 				continue
 			}
 			d1, d2 := "x", "y"
-			ch := &sg.Node{Kind: "choice", Name: fmt.Sprintf("gt%d-ch", i), Kids: []*sg.Node{
+			chName := fmt.Sprintf("gt%d-ch", i)
+			if sameChoiceName {
+				// the choices of different modules may have the same name (their members do not): each is its module's own
+				chName = "gt-ch"
+			}
+			ch := &sg.Node{Kind: "choice", Name: chName, Kids: []*sg.Node{
 				{Kind: "case", Name: fmt.Sprintf("gt%d-ca", i), Kids: []*sg.Node{{Kind: "leaf", Name: fmt.Sprintf("gt%d-a", i), Type: str(), Default: &d1},
 					{Kind: "leaf", Name: fmt.Sprintf("gt%d-am", i), Type: str(), Mandatory: "true"}}},
 				{Kind: "case", Name: fmt.Sprintf("gt%d-cb", i), Kids: []*sg.Node{{Kind: "leaf", Name: fmt.Sprintf("gt%d-b", i), Type: str(), Default: &d2},
